@@ -1,0 +1,217 @@
+//go:build verif
+
+package x509
+
+// Machine-checked contracts for package x509 (checked by /verif/govc; comment-only file). Properties C03, C14.
+
+//@ import "crypto/x509"
+//@ import "crypto/x509/pkix"
+//@ import "time"
+//@ import "bytes"
+//@ import "github.com/notaryproject/notation-core-go/internal/oid"
+//@ import "github.com/notaryproject/notation-core-go/internal/algorithm"
+
+// ---- vocabulary
+//@ spec func IsKU(e pkix.Extension) bool  { e.Id.Equal(oid.KeyUsage) }
+//@ spec func IsEKU(e pkix.Extension) bool { e.Id.Equal(oid.ExtKeyUsage) }
+// assumed post of x509.ParseCertificate (parser.go): no duplicate extension (parser.go:958 "duplicate extensions"),
+// the decoded key-usage / extended-key-usage fields come from an extension that is present, public key shape.
+//@ spec func ParsedCert(c *x509.Certificate) bool {
+//@     (forall j, k :: 0 <= j && j < k && k < len(c.Extensions) ==> !(IsKU(c.Extensions[j]) && IsKU(c.Extensions[k]))) &&
+//@     (forall j, k :: 0 <= j && j < k && k < len(c.Extensions) ==> !(IsEKU(c.Extensions[j]) && IsEKU(c.Extensions[k]))) &&
+//@     (len(c.ExtKeyUsage) + len(c.UnknownExtKeyUsage) > 0 ==> exists k :: 0 <= k && k < len(c.Extensions) && IsEKU(c.Extensions[k])) &&
+//@     algorithm.KeyShape(c.PublicKey) }
+
+// ---- predicates transcribed from the property statements (oracle; never adjusted to the code)
+// stmt C03: "signing time ... within the validity period (bounds inclusive)"
+//@ stmt spec func TimeOK(c *x509.Certificate, t *time.Time) bool { t == nil || !(t.Before(c.NotBefore) || t.After(c.NotAfter)) }
+// stmt C03: "self-signed"
+//@ stmt spec func SelfSignedStmt(c *x509.Certificate) bool { Signed(c, c) && bytes.Equal(c.RawSubject, c.RawIssuer) }
+// stmt C03: "every certificate signed by and naming the next one"
+//@ stmt spec func Link(c *x509.Certificate, p *x509.Certificate) bool { Signed(c, p) && bytes.Equal(p.RawSubject, c.RawIssuer) }
+// stmt C03: "critical key usage"
+//@ stmt spec func KUCrit(c *x509.Certificate) bool    { exists k :: 0 <= k && k < len(c.Extensions) && IsKU(c.Extensions[k]) && c.Extensions[k].Critical }
+// stmt C14: "key usage must be present"
+//@ stmt spec func KUPresent(c *x509.Certificate) bool { exists k :: 0 <= k && k < len(c.Extensions) && IsKU(c.Extensions[k]) }
+// stmt C03: "digital signature only (no encipherment, agreement, cert/CRL signing bits)"
+//@ stmt spec func LeafKU(c *x509.Certificate) bool {
+//@     c.KeyUsage & x509.KeyUsageDigitalSignature != 0 &&
+//@     c.KeyUsage & (x509.KeyUsageKeyEncipherment | x509.KeyUsageDataEncipherment | x509.KeyUsageKeyAgreement |
+//@                   x509.KeyUsageCertSign | x509.KeyUsageCRLSign | x509.KeyUsageEncipherOnly | x509.KeyUsageDecipherOnly) == 0 }
+// stmt C03: "whose key is RSA 2048/3072/4096 or EC P-256/384/521"
+//@ stmt spec func KeySpecOK(c *x509.Certificate) bool { algorithm.SupportedKey(c.PublicKey) }
+// stmt C03: "non-CA end-entity"
+//@ stmt spec func NotCA(c *x509.Certificate) bool { !(c.BasicConstraintsValid && c.IsCA) }
+//@ spec func PathLenPresent(c *x509.Certificate) bool { c.MaxPathLen > 0 || (c.MaxPathLen == 0 && c.MaxPathLenZero) }
+// stmt C03: "every issuer is a CA with ... a path length constraint, if any, not smaller than the number of intermediates below it"
+//@ stmt spec func CABasic(c *x509.Certificate, below int) bool { c.BasicConstraintsValid && c.IsCA && !(PathLenPresent(c) && c.MaxPathLen < below) }
+// stmt C03: "extended key usage - if present - excludes server/client auth, e-mail protection, time stamping and OCSP signing"
+//@ stmt spec func CSEKUOK(c *x509.Certificate) bool {
+//@     forall k :: 0 <= k && k < len(c.ExtKeyUsage) ==>
+//@         c.ExtKeyUsage[k] != x509.ExtKeyUsageServerAuth && c.ExtKeyUsage[k] != x509.ExtKeyUsageClientAuth &&
+//@         c.ExtKeyUsage[k] != x509.ExtKeyUsageEmailProtection && c.ExtKeyUsage[k] != x509.ExtKeyUsageTimeStamping &&
+//@         c.ExtKeyUsage[k] != x509.ExtKeyUsageOCSPSigning }
+//@ stmt spec func CSLeafOK(c *x509.Certificate) bool { NotCA(c) && KUCrit(c) && LeafKU(c) && CSEKUOK(c) && KeySpecOK(c) }
+// stmt C03: "critical key usage including certificate signing"
+//@ stmt spec func CSCAOK(c *x509.Certificate, below int) bool { CABasic(c, below) && KUCrit(c) && c.KeyUsage & x509.KeyUsageCertSign != 0 }
+// stmt C14: "an extended key usage extension that is marked critical and contains time stamping and nothing else"
+//@ stmt spec func TSEKUOK(c *x509.Certificate) bool {
+//@     len(c.ExtKeyUsage) == 1 && c.ExtKeyUsage[0] == x509.ExtKeyUsageTimeStamping && len(c.UnknownExtKeyUsage) == 0 &&
+//@     (exists k :: 0 <= k && k < len(c.Extensions) && IsEKU(c.Extensions[k]) && c.Extensions[k].Critical) }
+//@ stmt spec func TSLeafOK(c *x509.Certificate) bool { NotCA(c) && KUPresent(c) && LeafKU(c) && TSEKUOK(c) && KeySpecOK(c) }
+//@ stmt spec func TSCAOK(c *x509.Certificate, below int) bool { CABasic(c, below) && KUPresent(c) && c.KeyUsage & x509.KeyUsageCertSign != 0 }
+
+// stmt C03 (whole statement)
+//@ stmt spec func CodeSigningChainOK(ch []*x509.Certificate, t *time.Time) bool {
+//@     len(ch) >= 1 && (forall i :: 0 <= i && i < len(ch) ==> TimeOK(ch[i], t)) &&
+//@     (len(ch) == 1 ==> SelfSignedStmt(ch[0]) && CSLeafOK(ch[0])) &&
+//@     (len(ch) > 1 ==> SelfSignedStmt(ch[len(ch)-1]) &&
+//@                      (forall i :: 0 <= i && i < len(ch)-1 ==> !SelfSignedStmt(ch[i]) && Link(ch[i], ch[i+1])) &&
+//@                      CSLeafOK(ch[0]) && (forall i :: 1 <= i && i < len(ch) ==> CSCAOK(ch[i], i-1))) }
+// stmt C14 (whole statement)
+//@ stmt spec func TimestampingChainOK(ch []*x509.Certificate) bool {
+//@     len(ch) >= 1 &&
+//@     (len(ch) == 1 ==> SelfSignedStmt(ch[0]) && TSLeafOK(ch[0])) &&
+//@     (len(ch) > 1 ==> SelfSignedStmt(ch[len(ch)-1]) &&
+//@                      (forall i :: 0 <= i && i < len(ch)-1 ==> !SelfSignedStmt(ch[i]) && Link(ch[i], ch[i+1])) &&
+//@                      TSLeafOK(ch[0]) && (forall i :: 1 <= i && i < len(ch) ==> TSCAOK(ch[i], i-1))) }
+
+// ---- what the code's own tests amount to (derived from the code; used in invariants only)
+//@ spec func CSStep(ch []*x509.Certificate, j int, t *time.Time) bool {
+//@     TimeOK(ch[j], t) &&
+//@     (j == len(ch)-1 ==> SelfSignedStmt(ch[j])) &&
+//@     (j <  len(ch)-1 ==> !SelfSignedStmt(ch[j]) && Link(ch[j], ch[j+1])) &&
+//@     (j == 0 ==> CSLeafOK(ch[0])) && (j > 0 ==> CSCAOK(ch[j], j-1)) }
+//@ spec func TSStep(ch []*x509.Certificate, j int) bool {
+//@     (j == len(ch)-1 ==> SelfSignedStmt(ch[j])) &&
+//@     (j <  len(ch)-1 ==> !SelfSignedStmt(ch[j]) && Link(ch[j], ch[j+1])) &&
+//@     (j == 0 ==> TSLeafOK(ch[0])) && (j > 0 ==> TSCAOK(ch[j], j-1)) }
+//@ spec func ChainInput(ch []*x509.Certificate) bool { forall i :: 0 <= i && i < len(ch) ==> ch[i] != nil && ParsedCert(ch[i]) }
+
+// ---- helper.go
+//@ func isIssuedBy(subject, issuer)
+//@   requires subject != nil && issuer != nil
+//@   ensures [err] err == nil <==> Signed(subject, issuer) && ParentUsable(issuer)
+//@   ensures [val] err == nil ==> (result <==> bytes.Equal(issuer.RawSubject, subject.RawIssuer))
+//@   ensures [false] err != nil ==> !result
+//@   pure
+//@ func hasSelfSignature(cert)
+//@   requires cert != nil
+//@   ensures [iff] result <==> SelfSignedStmt(cert)
+//@   pure
+//@ func isSelfSigned(cert)
+//@   requires cert != nil
+//@   ensures [err] err == nil <==> Signed(cert, cert) && ParentUsable(cert)
+//@   ensures [val] err == nil ==> (result <==> bytes.Equal(cert.RawSubject, cert.RawIssuer))
+//@   ensures [false] err != nil ==> !result
+//@   pure
+//@ func validateSigningTime(cert, signingTime)
+//@   requires cert != nil
+//@   ensures [iff] result == nil <==> TimeOK(cert, signingTime)
+//@   pure
+//@ func validateCABasicConstraints(cert, expectedPathLen)
+//@   requires cert != nil
+//@   ensures [iff] result == nil <==> CABasic(cert, expectedPathLen)
+//@   pure
+//@ func validateLeafBasicConstraints(cert)
+//@   requires cert != nil
+//@   ensures [iff] result == nil <==> NotCA(cert)
+//@   pure
+//@ func validateLeafKeyUsage(cert)
+//@   requires cert != nil
+//@   ensures [iff] result == nil <==> LeafKU(cert)
+//@   pure
+//@ func validateSignatureAlgorithm(cert)
+//@   requires cert != nil && algorithm.KeyShape(cert.PublicKey)
+//@   ensures [iff] result == nil <==> KeySpecOK(cert)
+//@   pure
+//@ func ekuToString(eku)
+
+// ---- codesigning_cert_validations.go
+//@ func validateCodeSigningKeyUsagePresent(cert)
+//@   requires cert != nil && ParsedCert(cert)
+//@   ensures [iff] result == nil <==> KUCrit(cert)
+//@   loop 0
+//@     invariant !hasKeyUsageExtension
+//@     invariant forall k :: 0 <= k && k < it ==> !IsKU(cert.Extensions[k])
+//@   pure
+//@ func validateCodeSigningCAKeyUsage(cert)
+//@   requires cert != nil && ParsedCert(cert)
+//@   ensures [iff] result == nil <==> KUCrit(cert) && cert.KeyUsage & x509.KeyUsageCertSign != 0
+//@   pure
+//@ func validateCodeSigningLeafKeyUsage(cert)
+//@   requires cert != nil && ParsedCert(cert)
+//@   ensures [iff] result == nil <==> KUCrit(cert) && LeafKU(cert)
+//@   pure
+//@ func validateCodeSigningExtendedKeyUsage(cert)
+//@   requires cert != nil
+//@   ensures [iff] result == nil <==> CSEKUOK(cert)
+//@   loop 0
+//@     invariant len(excludedEkus) == 5 && excludedEkus[0] == x509.ExtKeyUsageServerAuth && excludedEkus[1] == x509.ExtKeyUsageClientAuth && excludedEkus[2] == x509.ExtKeyUsageEmailProtection && excludedEkus[3] == x509.ExtKeyUsageTimeStamping && excludedEkus[4] == x509.ExtKeyUsageOCSPSigning
+//@     invariant forall k :: 0 <= k && k < it ==> (forall m :: 0 <= m && m < 5 ==> cert.ExtKeyUsage[k] != excludedEkus[m])
+//@   loop 1
+//@     invariant len(excludedEkus) == 5 && excludedEkus[0] == x509.ExtKeyUsageServerAuth && excludedEkus[1] == x509.ExtKeyUsageClientAuth && excludedEkus[2] == x509.ExtKeyUsageEmailProtection && excludedEkus[3] == x509.ExtKeyUsageTimeStamping && excludedEkus[4] == x509.ExtKeyUsageOCSPSigning
+//@     invariant forall k :: 0 <= k && k < it#0 - 1 ==> (forall m :: 0 <= m && m < 5 ==> cert.ExtKeyUsage[k] != excludedEkus[m])
+//@     invariant 0 <= it#0 - 1 && it#0 - 1 < len(cert.ExtKeyUsage) && certEku == cert.ExtKeyUsage[it#0 - 1]
+//@     invariant forall m :: 0 <= m && m < it ==> certEku != excludedEkus[m]
+//@   pure
+//@ func validateCodeSigningLeafCertificate(cert)
+//@   requires cert != nil && ParsedCert(cert)
+//@   ensures [iff] result == nil <==> CSLeafOK(cert)
+//@   pure
+//@ func validateCodeSigningCACertificate(cert, expectedPathLen)
+//@   requires cert != nil && ParsedCert(cert)
+//@   ensures [iff] result == nil <==> CSCAOK(cert, expectedPathLen)
+//@   pure
+
+//@ func ValidateCodeSigningCertChain(certChain, signingTime)
+//@   props C03
+//@   requires ChainInput(certChain)
+//@   ensures [accept=>conforming] result == nil ==> CodeSigningChainOK(certChain, signingTime)
+//@   ensures [conforming=>accept] CodeSigningChainOK(certChain, signingTime) ==> result == nil
+//@   loop 0
+//@     invariant len(certChain) > 1
+//@     invariant forall j :: 0 <= j && j < it ==> CSStep(certChain, j, signingTime)
+//@   pure
+
+// ---- timestamp_cert_validations.go
+//@ func validateTimestampingKeyUsagePresent(cert)
+//@   requires cert != nil && ParsedCert(cert)
+//@   ensures [iff] result == nil <==> KUPresent(cert)
+//@   loop 0
+//@     invariant !hasKeyUsageExtension
+//@     invariant forall k :: 0 <= k && k < it ==> !IsKU(cert.Extensions[k])
+//@   pure
+//@ func validateTimestampingCAKeyUsage(cert)
+//@   requires cert != nil && ParsedCert(cert)
+//@   ensures [iff] result == nil <==> KUPresent(cert) && cert.KeyUsage & x509.KeyUsageCertSign != 0
+//@   pure
+//@ func validateTimestampingLeafKeyUsage(cert)
+//@   requires cert != nil && ParsedCert(cert)
+//@   ensures [iff] result == nil <==> KUPresent(cert) && LeafKU(cert)
+//@   pure
+//@ func validateTimestampingExtendedKeyUsage(cert)
+//@   requires cert != nil && ParsedCert(cert)
+//@   ensures [iff] result == nil <==> TSEKUOK(cert)
+//@   loop 0
+//@     invariant len(cert.ExtKeyUsage) == 1 && cert.ExtKeyUsage[0] == x509.ExtKeyUsageTimeStamping && len(cert.UnknownExtKeyUsage) == 0
+//@     invariant forall k :: 0 <= k && k < it ==> !IsEKU(cert.Extensions[k])
+//@   pure
+//@ func validateTimestampingLeafCertificate(cert)
+//@   requires cert != nil && ParsedCert(cert)
+//@   ensures [iff] result == nil <==> TSLeafOK(cert)
+//@   pure
+//@ func validateTimestampingCACertificate(cert, expectedPathLen)
+//@   requires cert != nil && ParsedCert(cert)
+//@   ensures [iff] result == nil <==> TSCAOK(cert, expectedPathLen)
+//@   pure
+
+//@ func ValidateTimestampingCertChain(certChain)
+//@   props C14
+//@   requires ChainInput(certChain)
+//@   ensures [accept=>conforming] result == nil ==> TimestampingChainOK(certChain)
+//@   ensures [conforming=>accept] TimestampingChainOK(certChain) ==> result == nil
+//@   loop 0
+//@     invariant len(certChain) > 1
+//@     invariant forall j :: 0 <= j && j < it ==> TSStep(certChain, j)
+//@   pure
